@@ -141,6 +141,22 @@ def replay(case):
     oracle(case)
 
 
+def _clean(e):
+    """generated trees never contain `constant` nodes of their own (a bare `constant` is not a well-formed reference)"""
+    if isinstance(e, list):
+        return [_clean(x) for x in e]
+    if isinstance(e, dict) and "prim" in e:
+        out = dict(e, prim="unit" if e["prim"] == "constant" else e["prim"])
+        if e.get("args"):
+            out["args"] = [_clean(a) for a in e["args"]]
+        return out
+    return e
+
+
+def _tree(n):
+    return gm.trees(n, prims=PRIMS, ann=gm.annots_simple()).map(_clean)
+
+
 def _inject(draw, e, hashes, p=0.25):
     """Replace some nodes of e by references (leaf, argument, sequence item or root position)."""
     if hashes and draw(st.floats(0, 1)) < p:
@@ -159,7 +175,7 @@ def generic_case(draw):
     k = draw(st.integers(1, 5))
     consts, hashes = [], []
     for i in range(k):
-        body = draw(gm.trees(6, prims=PRIMS, ann=gm.annots_simple()))
+        body = draw(_tree(6))
         # chain: force a reference to the previous constant half of the time
         if hashes and draw(st.booleans()):
             body = {"prim": "Pair", "args": [const_ref(hashes[-1]), body]} if draw(st.booleans()) else \
@@ -168,7 +184,7 @@ def generic_case(draw):
             body = _inject(draw, body, hashes, 0.15)
         consts.append(body)
         hashes.append(ref_hash(body))
-    script = draw(gm.trees(10, prims=PRIMS, ann=gm.annots_simple()))
+    script = draw(_tree(10))
     mode = draw(st.sampled_from(["refs", "refs", "refs", "root", "none", "unknown"]))
     if mode == "root":
         script = const_ref(draw(st.sampled_from(hashes)))
@@ -182,9 +198,12 @@ def generic_case(draw):
             inner = [const_ref(bogus)]
             consts.append(inner)
             script = [base, const_ref(ref_hash(inner))]
+    if mode == "unknown" and draw(st.integers(0, 3)) == 0:  # nothing at all is registered
+        consts = []
+        script = [draw(_tree(6)), const_ref(bogus)]
     late = []
-    if len(consts) >= 2 and draw(st.integers(0, 2)) == 0:  # some constants become known only after the first attempts
-        k = draw(st.integers(1, len(consts) - 1))
+    if len(consts) >= 1 and draw(st.integers(0, 2)) == 0:  # some (or all) constants become known only after the first attempts
+        k = draw(st.integers(1, len(consts)))
         idx = sorted(draw(st.sets(st.integers(0, len(consts) - 1), min_size=1, max_size=k)))
         late = [consts[i] for i in idx]
         consts = [c for i, c in enumerate(consts) if i not in idx]
